@@ -37,7 +37,12 @@ LEVEL_TEXT = ("Lean, for every input: == and != never let ConversionNotFound esc
               "conversions between simple units (products of powers of prefixed base units of fundamental, independent dimensions "
               "whose pairing exhausts both sides): convert returns a quantity or raises ConversionNotFound and nothing else "
               "(simple_conversion_only_not_found: _inline_paths total, plan application cannot divide by zero) and python -O "
-              "returns the same result (simple_conversion_mode_independent). "
+              "returns the same result (simple_conversion_mode_independent). ON THE SHIPPED DEFINITIONS THEMSELVES (float constants, "
+              "only approximately consistent - termination and exception freedom need only the SHAPE of the graph, which the kernel "
+              "checks per run on the regenerated tables): the search returns for every pair of interned units of one dimension after "
+              "any unit operations (findPath_totalN, shipped_path_search_never_raises) and convert between simple units returns or "
+              "raises ConversionNotFound only (convert_simple_totalN, shipped_simple_only_not_found; inhabited by 60 mile/hour -> "
+              "meter/second). "
               "That no AssertionError escapes the factor-matching PLANNER is false for the pinned code (known findings, by structural class); outside those classes the "
               "claim rests on the kernel-evaluated family - identical outcomes with assertions on and off (family_dashO_same) - on "
               "differential execution of the model in both modes against python and python -O, and on the oracle.")
@@ -54,8 +59,12 @@ THEOREMS = [
     "Measured.C07.path_search_mode_independent", "Measured.C07.direct_conversion_mode_independent",
     "Measured.C07.simple_conversion_only_not_found", "Measured.C07.simple_conversion_mode_independent",
     "Measured.convert_simple_total", "Measured.convert_simple_mode",
+    "Measured.findPath_totalN", "Measured.convert_simple_totalN",
+    "Measured.Obligations.NearShipped.shipped_path_search_never_raises",
+    "Measured.Obligations.NearShipped.shipped_simple_only_not_found",
+    "Measured.Obligations.NearShipped.shipped_simple_total_inhabited",
 ]
-LEAN_TARGETS = ["Props.C07", "Obligations.C07"]
+LEAN_TARGETS = ["Props.C07", "Obligations.C07", "Obligations.C07Near"]
 QUICK = {"chunks": 3, "ops": 1200}
 THOROUGH = {"chunks": 8, "ops": 8000}
 RTOL = 1e-11
@@ -216,6 +225,23 @@ def generate(ctx, n_ops):
         S, O, P, H, H2, T = (prod[k] for k in ("Sack", "OtherSack", "Pace2", "Haul", "Haul2", "Tick"))
         product_cases = [([S, P], [H2]), ([H2], [S, P]), ([S, P, T], [H2, T]), ([H2, T], [O, P, T]), ([H], [O, P]),
                          ([O, P], [H2]), ([S, P], [O, P]), ([H2, S], [H, O]), ([P, S], [H])]
+    # (e) opaque base units of a MIXED-SIGN dimension (speed), two unrelated and one linked, for the
+    # cancelling shapes of _cancel_factors: warp/impulse -> 1, 1 -> warp/impulse, kg*warp/impulse -> lb, crawl/warp -> 1
+    from measured import One
+    sdim = ",".join(str(e) for e in (Unit._by_name["meter"].dimension / Unit._by_name["second"].dimension).exponents)
+    opq = {}
+    for nm in ("Warp", "Impulse", "Crawl"):
+        opq[nm] = yield from define(nm, sdim)
+    cancel_cases = []
+    if all(v is not None for v in opq.values()) and all(v is not None for v in prod.values()):
+        yield from eq_units(opq["Crawl"], 2, opq["Warp"])
+        one = ctx.sess.uid(One)
+        kg, lb = ctx.sess.uid(Unit._by_name["kilogram"]), ctx.sess.uid(Unit._by_name["pound"])
+        W, I, C = opq["Warp"], opq["Impulse"], opq["Crawl"]
+        # (numerator, denominator) of source and of target
+        cancel_cases = [(([W], [I]), ([one], [])), (([one], []), ([W], [I])), (([kg, W], [I]), ([lb], [])),
+                        (([C], [W]), ([one], [])), (([prod["Sack"]], [prod["OtherSack"]]), ([one], [])),
+                        (([prod["Sack"], W], [I]), ([kg], [])), (([kg, C], [W]), ([lb], [])), (([W], [I]), ([C], [W]))]
     ctx.resolve_sizes()
     pool_special = [v for v in special.values() if v is not None] + [meter, second]
 
@@ -231,9 +257,32 @@ def generate(ctx, n_ops):
         except StopIteration as stop:
             return stop.value
 
+    def ratio_unit(num, den):
+        nonlocal emitted
+        cur = num[0]
+        for nxt in num[1:]:
+            res = yield "U\tmul\tu%d\tu%d" % (cur, nxt)
+            emitted += 1
+            if not res.startswith("ok\tu"):
+                return None
+            cur = int(res.split("\t")[1][1:])
+        for nxt in den:
+            res = yield "U\tdiv\tu%d\tu%d" % (cur, nxt)
+            emitted += 1
+            if not res.startswith("ok\tu"):
+                return None
+            cur = int(res.split("\t")[1][1:])
+        return cur
+
     while emitted < n_ops:
         r = rng.random()
-        if product_cases and r < 0.08:
+        if cancel_cases and r < 0.05:
+            (an, ad), (bn, bd) = rng.choice(cancel_cases)
+            a = yield from ratio_unit(an, ad)
+            b = yield from ratio_unit(bn, bd)
+            if a is None or b is None:
+                continue
+        elif product_cases and r < 0.12:
             fa, fb = rng.choice(product_cases)
             a = b = None
             for side, fs in (("a", fa), ("b", fb)):
